@@ -66,6 +66,14 @@ Theorem C27_fit_contains_cloud_refuted :
   contains_b 0 300 245 (let WH := fit Cloud 300 245 40 20 in inner Cloud (fst WH) (snd WH) 300 245) = false.
 Proof. exact cloud_content_aspect_refuted. Qed.
 
+(* The repaired cloud fit (coq/C27/fix.patch: aspect ratio taken before the padding is added) has the
+   guarantee for all inputs, no side condition. *)
+Theorem C27_cloud_fixed_contains :
+  forall w h px py, 0 <= w -> 0 <= h -> 0 <= px -> 0 <= py ->
+    let WH := fit_cloud_fixed w h px py in
+    Contains (w + px) (h + py) (inner Cloud (fst WH) (snd WH) w h).
+Proof. exact cloud_fixed_contains. Qed.
+
 (* circle 98x98 without padding: inner box 97x97 (with padding >= 2 the theorem above applies) *)
 Theorem C27_fit_contains_circle_zero_padding_refuted :
   contains_b 0 98 98 (let WH := fit Circle 98 98 0 0 in inner Circle (fst WH) (snd WH) 98 98) = false.
@@ -111,6 +119,7 @@ Print Assumptions C27_fit_contains_exact_shapes.
 Print Assumptions C27_fit_contains_guarded.
 Print Assumptions C27_fit_contains_content.
 Print Assumptions C27_inner_inside_box.
+Print Assumptions C27_cloud_fixed_contains.
 Print Assumptions C27_fit_contains_oval_partial.
 Print Assumptions C27_fit_contains_circle_zero_padding_refuted.
 Print Assumptions C27_person_within_half_px_partial.
